@@ -506,7 +506,12 @@ impl ObjFileFormat for TextFormat {
                 ".DEBUG" => if !rest.is_empty() {
                     let split_pos = rest.iter().position(|l| l.starts_with('='))?;
                     if !rest.last()?.starts_with('=') { return None; }
-                    let (label_src, [_, line_src @ .., _]) = rest.split_at(split_pos) else { return None };
+                    // A symbol table without debug symbols is written with the label table and a single divider.
+                    let (label_src, tail) = rest.split_at(split_pos);
+                    let line_src = match tail {
+                        [_, line_src @ .., _] => line_src,
+                        _ => &[],
+                    };
 
                     let label_table = parse_table(label_src, ["LABEL", "INDEX"], |[label, index_str], _| {
                         let index = index_str.parse().ok()?;
